@@ -14,7 +14,7 @@ from . import core, driver, gen, steps, streams, universe, workload
 
 PROP = "C06"
 LEVEL = "fault_enumeration"
-KINDS = ("sim", "bytesio", "buffered", "raw")
+KINDS = ("sim", "bytesio", "buffered", "raw", "framed")
 FULL_ENUM_LIMIT = 2048
 MEM_GIB = 4.0
 
@@ -38,7 +38,10 @@ def plan(tier: str, seed: int, scale: float = 1.0) -> list[dict]:
     return [{"seed": seed, "classes": names[i:i + per], "instances": inst} for i in range(0, len(names), per)]
 
 
-def _open_source(kind: str, prefix: bytes, budget: int, chunks):
+def _open_source(kind: str, prefix: bytes, budget: int, chunks, whole: bytes | None = None):
+    if kind == "framed":
+        # the whole encoding (and more) sits in the buffer object, but read() ends at the cut
+        return streams.FramedBytesIO((whole if whole is not None else prefix) + b"\x00" * 64, len(prefix), budget=budget), None
     if kind == "sim":
         return streams.SimSource(prefix, budget=budget), None
     if kind == "bytesio":
@@ -51,11 +54,11 @@ def _open_source(kind: str, prefix: bytes, budget: int, chunks):
     return io.BufferedReader(raw, buffer_size=16), raw
 
 
-def classify(cls, reader, data: bytes, k: int, kind: str, chunks, budget: int, underflow_cls):
+def classify(cls, reader, data: bytes, k: int, kind: str, chunks, budget: int, underflow_cls, in_thread: bool = False):
     """Return None when the property held for this case, else an outcome string."""
-    src, raw = _open_source(kind, data[:k], budget, chunks)
+    src, raw = _open_source(kind, data[:k], budget, chunks, whole=data)
     try:
-        val = reader(src)
+        val = core.call_in_thread(reader, src) if in_thread else reader(src)
     except underflow_cls:
         return None
     except streams.SimBudgetExceeded:
@@ -78,7 +81,7 @@ def confirm_wall(cls, reader, data, k, kind, chunks, underflow_cls):
     budget = steps.step_budget(len(data), universe.n_fields_reachable(cls))
 
     def call():
-        src, _ = _open_source(kind, data[:k], None, chunks)
+        src, _ = _open_source(kind, data[:k], None, chunks, whole=data)
         return reader(src)
 
     n, _res, exc = steps.count_steps(call, budget)
@@ -126,6 +129,10 @@ def run_task(task: dict) -> dict:
             if k_inst == task["instances"]:
                 # classes that can carry a blob get one extra instance with a >= 64 KiB value
                 shape = {"name": "huge", "fan": 1, "str": "huge", "null_rate": 0.05, "nondefault_rate": 0.7, "budget": 20}
+                if rng.random() < 0.17:
+                    # now and then a value above 1 MiB (a full fetch / produce record set)
+                    shape["huge_sizes"] = [1048577, 1048576 + 4096, 1572864, 2097152 + 7]
+                    stats.inc("instances_with_value_above_1MiB")
             g = workload.make_golden(rng, cls, shape=shape, stats=stats)
             if g is None:
                 log.add("discard", qn, k_inst)
@@ -160,8 +167,11 @@ def run_task(task: dict) -> dict:
                                 left -= c
                         elif kind == "raw":
                             chunks = streams.short_read_chunks(rng)
-                        out = classify(cls, reader, g.data, k, kind, chunks, budget, BufferUnderflow)
+                        in_thread = rng.random() < 0.04
+                        out = classify(cls, reader, g.data, k, kind, chunks, budget, BufferUnderflow, in_thread)
                         stats.inc("cases")
+                        if in_thread:
+                            stats.inc("cases_decoded_in_a_fresh_thread")
                         stats.inc(f"fault_eof_{kind}")
                         if k > 0:
                             distinct.add((enc_ids.setdefault(g.data, len(enc_ids)), k, kind))
@@ -183,7 +193,7 @@ def run_task(task: dict) -> dict:
                             violations.append({
                                 "signature": out,
                                 "run_seed": run_seed,
-                                "scenario": {"class": qn, "instance": g.tree, "cut": k, "kind": kind, "chunks": chunks},
+                                "scenario": {"class": qn, "instance": g.tree, "cut": k, "kind": kind, "chunks": chunks, "thread": in_thread},
                             })
                     if k > 0 and (k - 1) in varint_offsets and g.data[k - 1] & 0x80:
                         stats.inc("probe_cut_after_continuation_byte")
@@ -220,7 +230,8 @@ def evaluate(scenario: dict):
         return None
     budget = workload.read_budget(len(data), cls)
     with core.wall_backstop(60):
-        out = classify(cls, entity_reader(cls), data, k, scenario["kind"], scenario.get("chunks"), budget, BufferUnderflow)
+        out = classify(cls, entity_reader(cls), data, k, scenario["kind"], scenario.get("chunks"), budget, BufferUnderflow,
+                       bool(scenario.get("thread")))
     if out == "wall":
         out = confirm_wall(cls, entity_reader(cls), data, k, scenario["kind"], scenario.get("chunks"), BufferUnderflow)
     if out is not None and out.startswith("probe:"):
@@ -233,6 +244,8 @@ def candidates(scenario: dict):
 
     cls = universe.by_name(scenario["class"])
     old_len = len(workload.encode_clean(cls, gen.from_tree(scenario["instance"]))[0])
+    if scenario.get("thread"):
+        yield {**scenario, "thread": False}
     for kind in ("sim", "bytesio"):
         if scenario["kind"] != kind and KINDS.index(kind) < KINDS.index(scenario["kind"]):
             yield {**scenario, "kind": kind, "chunks": None}
